@@ -90,6 +90,12 @@ class Cells:
             self.frames.append((self.fp, self.up))
             self.fp = sp - (a[0] + 1)
             self.up = up
+        elif o == "tc":
+            if self.fp + a[0] + 1 > sp:
+                return "oob"
+            vals = [self.cells[c] for c in self.stack[sp - (a[0] + 1):]]
+            del self.stack[self.fp:]
+            self.stack += [self.new(v) for v in vals]
         elif o == "ret":
             if not self.frames:
                 return "noframe"
@@ -226,6 +232,8 @@ class Gen:
             choices += [("fg", 2), ("fs", 1)]
         if sp > 0:
             choices += [("cc", 2), ("cm", 1.5)]
+        if live > 0:
+            choices += [("tc", 1)]
         if m.frames:
             choices += [("ret", 2.5)]
         choices += [("grow", 1)]
@@ -278,6 +286,11 @@ class Gen:
                 self.emit(("cc %d %s" % (n, ".".join(map(str, ks)))).rstrip())
             else:
                 self.emit("cm %d" % n)
+        elif o == "tc":
+            n = r.randrange(min(3, live))
+            if self.sloppy and r.random() < 0.3:
+                n = r.randrange(live + 2)
+            self.emit("tc %d" % n)
         elif o == "ret":
             self.emit("ret")
         elif o == "grow":
